@@ -329,6 +329,76 @@ func gen(a Args, out *Out) {
 			sameSlot(drv.ImplWheel, rng.Fork(), 3, round%4, round%3)
 		}
 	}
+	// 6. a cancelled timer between repeating neighbours in one near bucket; the tick that
+	// expires the bucket is handled BEFORE the pending cancel request (the worker drops the
+	// cancelled node at expiry), the cancel request is handled some ticks later, and the
+	// neighbours go on for several periods, visited tick by tick: if the dropped node kept
+	// stale links, unlinking it then corrupts the buckets its former neighbours moved to.
+	for k := 0; k < 24*scale && k < 24*10; k++ {
+		both(func(impl int64) {
+			r := rng.Fork()
+			tt0 := int64(r.PickI64(0, 500))
+			h := drv.NewHist(impl, pos(r), tt0)
+			// all of them first due at tt0 + due
+			due := int64(r.Range(4, 9))
+			nNeigh := r.Range(1, 3)
+			victimPos := k % (nNeigh + 1) // position of the cancelled one among the neighbours
+			now := tt0
+			var victim int64
+			startOne := func(isVictim bool) {
+				left := tt0 + due - now
+				if isVictim && r.Bool() {
+					victim = h.Start(left)
+				} else if isVictim {
+					victim = h.Every(left)
+				} else {
+					h.Every(left) // period = distance to the common first due tick
+				}
+				h.HandleAdd()
+			}
+			for i := 0; i <= nNeigh; i++ {
+				startOne(i == victimPos)
+				if i < nNeigh && tt0+due-now > 2 {
+					adv := int64(r.Range(1, 2))
+					h.Adv(adv) // the next one gets a shorter period
+					now += adv
+				}
+			}
+			if r.Chance(1, 3) {
+				h.Start(tt0 + due - now) // a one-shot neighbour as well
+				h.HandleAdd()
+			}
+			h.Cancel(victim)
+			h.Probe()
+			for now < tt0+due { // the expiry tick, cancel request still queued
+				h.Adv(1)
+				now++
+			}
+			for j := 0; j < r.Range(0, 3); j++ {
+				h.Adv(1)
+				now++
+			}
+			h.HandleDel()
+			h.Probe()
+			for j := 0; j < 45; j++ {
+				h.Adv(1)
+			}
+			h.Size()
+			h.Probe()
+			emit("stale-links", h)
+		})
+	}
+
+	// 7. the REAL worker goroutine with nobody reading Chan(): the worker gets stuck
+	// delivering, every id is cancelled, then Chan() is drained; counting only (see drv.Live)
+	for k := 0; k < 1*scale && k < 4; k++ {
+		for _, lv := range [][2]int64{{drv.ImplLiveWheel, 300}, {drv.ImplLiveHeap, 700}} {
+			in := List(Int(lv[0]), Int(lv[1]+int64(rng.Intn(50))), Int(0), List())
+			out.Case("live", true, in, drv.Run(in))
+			out.Count("live-worker-scenarios")
+		}
+	}
+
 	deepSlots(a, rng.Fork(), out, 2)
 	deepSlots(a, rng.Fork(), out, 3)
 
